@@ -153,6 +153,25 @@ def tlc_ok(res, what=""):
     return res
 
 
+def tlaps(run, module, deps=()):
+    """Run the TLA+ proof system on spec/proofs/<module>.tla (with the listed spec modules copied beside it).  Design-level garnish:
+    the result goes into the evidence file, it is never a verdict."""
+    import re
+    d = run.sub("proofs-" + module)
+    shutil.copy(SPEC / "proofs" / f"{module}.tla", d / f"{module}.tla")
+    for m in deps:
+        shutil.copy(SPEC / f"{m}.tla", d / f"{m}.tla")
+    try:
+        p = subprocess.run(["tlapm", "--toolbox", "0", "0", f"{module}.tla"], cwd=str(d), capture_output=True, text=True, timeout=900)
+        out = p.stdout + p.stderr
+    except Exception as e:  # noqa: BLE001
+        out = "tlapm failed: " + repr(e)
+    m = re.search(r"All (\d+) obligations? proved", out)
+    if not m:
+        print(f"note: TLAPS did not prove all obligations of {module}.tla (design-level, not a verdict): {out[-300:]}")
+    return {"tool": "tlapm", "module": f"spec/proofs/{module}.tla", "obligations_proved": int(m.group(1)) if m else 0, "all_proved": bool(m)}
+
+
 def coverage_counts(out):
     """Per-action counts from `-coverage` output: lines like  <Act line ..., col ... of module M>: 12:34"""
     cov = {}
